@@ -3,36 +3,39 @@
    derived behaviour contains the guard behaviour and a probe (b1). The connection state is rebuilt from
    the probe's callbacks and the driver's commands; the guards are the statements. *)
 EXTENDS TraceIO, FiniteSets, Integers
-VARIABLES l, cfg, pendDir, pendPeer, estPeer, estDir, banned
-vars == <<l, cfg, pendDir, pendPeer, estPeer, estDir, banned>>
+VARIABLES l, cfg, pendDir, pendPeer, estPeer, estDir, banned, mustClose
+vars == <<l, cfg, pendDir, pendPeer, estPeer, estDir, banned, mustClose>>
 Ids == 1..40
 R == Rec[l]
 NoCfg == [suite |-> "none"]
 Init == /\ l = 1 /\ InitReg /\ cfg = NoCfg /\ pendDir = [i \in Ids |-> "none"] /\ pendPeer = [i \in Ids |-> -1]
-        /\ estPeer = [i \in Ids |-> -1] /\ estDir = [i \in Ids |-> "none"] /\ banned = {}
+        /\ estPeer = [i \in Ids |-> -1] /\ estDir = [i \in Ids |-> "none"] /\ banned = {} /\ mustClose = {}
 SeqToSet(s) == {s[i] : i \in 1..Len(s)}
 Reset == /\ R.e = "reset" /\ cfg' = R
          /\ pendDir' = [i \in Ids |-> "none"] /\ pendPeer' = [i \in Ids |-> -1]
          /\ estPeer' = [i \in Ids |-> -1] /\ estDir' = [i \in Ids |-> "none"]
          /\ banned' = IF R.suite = "allow" THEN (0..3) \ SeqToSet(R.allowed) ELSE {}
-Dial == R.e = "dial" /\ pendPeer' = [pendPeer EXCEPT ![R.id] = R.peer] /\ UNCHANGED <<cfg, pendDir, estPeer, estDir, banned>>
+         /\ mustClose' = {}
+Dial == R.e = "dial" /\ pendPeer' = [pendPeer EXCEPT ![R.id] = R.peer] /\ UNCHANGED <<cfg, pendDir, estPeer, estDir, banned, mustClose>>
 DialRet == /\ R.e = "dialRet"
            /\ pendDir' = IF R.res = "ok" THEN [pendDir EXCEPT ![R.id] = "out"] ELSE pendDir
-           /\ UNCHANGED <<cfg, pendPeer, estPeer, estDir, banned>>
+           /\ UNCHANGED <<cfg, pendPeer, estPeer, estDir, banned, mustClose>>
 Incoming == /\ R.e = "swarmEvent" /\ R.kind = "incoming"
-            /\ pendDir' = [pendDir EXCEPT ![R.id] = "in"] /\ UNCHANGED <<cfg, pendPeer, estPeer, estDir, banned>>
+            /\ pendDir' = [pendDir EXCEPT ![R.id] = "in"] /\ UNCHANGED <<cfg, pendPeer, estPeer, estDir, banned, mustClose>>
 Fail == /\ R.e \in {"cbDialFailure", "cbListenFailure"}
-        /\ pendDir' = [pendDir EXCEPT ![R.id] = "none"] /\ UNCHANGED <<cfg, pendPeer, estPeer, estDir, banned>>
+        /\ pendDir' = [pendDir EXCEPT ![R.id] = "none"] /\ UNCHANGED <<cfg, pendPeer, estPeer, estDir, banned, mustClose>>
 Est == /\ R.e = "cbConnEstablished"
        /\ (cfg.suite \in {"block", "allow"} => R.peer \notin banned) = TRUE     \* C53: never established while blocked / not allowed
        /\ pendDir' = [pendDir EXCEPT ![R.id] = "none"]
        /\ estPeer' = [estPeer EXCEPT ![R.id] = R.peer] /\ estDir' = [estDir EXCEPT ![R.id] = R.dir]
-       /\ UNCHANGED <<cfg, pendPeer, banned>>
+       /\ UNCHANGED <<cfg, pendPeer, banned, mustClose>>
 Closed == /\ R.e = "cbConnClosed"
           /\ estPeer' = [estPeer EXCEPT ![R.id] = -1] /\ estDir' = [estDir EXCEPT ![R.id] = "none"]
-          /\ UNCHANGED <<cfg, pendDir, pendPeer, banned>>
+          /\ UNCHANGED <<cfg, pendDir, pendPeer, banned, mustClose>>
 ListChange == /\ R.e \in {"block", "unblock"}
               /\ banned' = IF R.e = "block" THEN banned \cup {R.peer} ELSE banned \ {R.peer}
+              \* connections that exist when a peer becomes blocked / disallowed must be closed (even if it is unblocked again before the next poll)
+              /\ mustClose' = IF R.e = "block" /\ R.res THEN mustClose \cup {i \in Ids : estPeer[i] = R.peer} ELSE mustClose
               /\ UNCHANGED <<cfg, pendDir, pendPeer, estPeer, estDir>>
 Byp == IF Has(cfg, "bypass") THEN cfg.bypass ELSE -5
 Lim(k) == IF Has(cfg, k) THEN cfg[k] ELSE 1000
@@ -50,16 +53,16 @@ Snap == /\ R.e = "snap"
               \* the Swarm's own counters (no peer breakdown): binding when no peer is bypassed
               /\ (~Has(cfg, "bypass") => /\ R.pi <= Lim("max_pi") /\ R.po <= Lim("max_po") /\ R.ei <= Lim("max_ei")
                                           /\ R.eo <= Lim("max_eo") /\ R.established <= Lim("max_e"))) = TRUE
-        /\ UNCHANGED <<cfg, pendDir, pendPeer, estPeer, estDir, banned>>
+        /\ UNCHANGED <<cfg, pendDir, pendPeer, estPeer, estDir, banned, mustClose>>
 Polled == /\ R.e = "polled"
           \* C53: at quiescence no established connection to a blocked / not allowed peer remains
-          /\ ((R.q /\ cfg.suite \in {"block", "allow"}) => \A i \in Ids : estPeer[i] = -1 \/ estPeer[i] \notin banned) = TRUE
-          /\ UNCHANGED <<cfg, pendDir, pendPeer, estPeer, estDir, banned>>
+          /\ ((R.q /\ cfg.suite \in {"block", "allow"}) => ((\A i \in Ids : estPeer[i] = -1 \/ estPeer[i] \notin banned) /\ (\A i \in mustClose : estPeer[i] = -1))) = TRUE
+          /\ UNCHANGED <<cfg, pendDir, pendPeer, estPeer, estDir, banned, mustClose>>
 Skip == /\ \/ R.e \in {"envIncoming", "envDial", "envUpgrade", "failMux", "close", "disconnect", "behClose", "behCloseAll", "keepAlive", "end",
                        "cbNewListener", "cbNewListenAddr", "cbExpiredListenAddr", "cbListenerError", "cbListenerClosed", "cbAddressChange", "cbOther",
                        "hLocalProto", "hRemoteProto", "emitQueued", "bEmit", "hEvent", "emitF", "hEmit", "hRequestOut", "hStream", "ranTask"}
            \/ (R.e = "swarmEvent" /\ R.kind # "incoming")
-        /\ UNCHANGED <<cfg, pendDir, pendPeer, estPeer, estDir, banned>>
+        /\ UNCHANGED <<cfg, pendDir, pendPeer, estPeer, estDir, banned, mustClose>>
 Next == l <= NRec /\ l' = l + 1 /\ (Reset \/ Dial \/ DialRet \/ Incoming \/ Fail \/ Est \/ Closed \/ ListChange \/ Snap \/ Polled \/ Skip)
 Progress == Mark(l)
 ====
